@@ -69,3 +69,12 @@ ASSUMPTIONS = [
 TRUSTED = ['reference semantics contracts/ref_mut.py']
 EXPLANATION = ('Assign.glomit (with and without missing=), _assign_op, _set_sequence_item and _apply_for_each are proved equal to reference semantics: value evaluated '
                'once, parent fetched, missing tail built before a single attaching store, the very target returned.')
+
+CANARIES = [
+    {'name': 'Assign: value re-evaluated in the missing branch', 'module': 'mutation', 'only': ['mutation.Assign.glomit'], 'expect': ['mutation.Assign.glomit'],
+     'old': "Assign(remaining_path, Val(val), missing=self.missing)", 'new': "Assign(remaining_path, val, missing=self.missing)"},
+    {'name': 'Assign: returns the destination', 'module': 'mutation', 'only': ['mutation.Assign.glomit'], 'expect': ['mutation.Assign.glomit'],
+     'old': "        _apply_for_each(_apply, path, dest)\n\n        return target", 'new': "        _apply_for_each(_apply, path, dest)\n\n        return dest"},
+    {'name': '_assign_op: handler errors not wrapped', 'module': 'core', 'only': ['core._assign_op'], 'expect': ['core._assign_op'],
+     'old': "        try:\n            _assign(dest, arg, val)\n        except Exception as e:\n            raise PathAssignError(e, path, arg)", 'new': "        _assign(dest, arg, val)"},
+]
